@@ -240,3 +240,64 @@ def check_blind_overwrites(ctx, facts, rule, bodies):
                         'max-join / guard on the same map): an older operation arriving later overwrites a newer one, so the outcome depends on '
                         'arrival / merge order')
     return n
+
+
+def check_guarded_drops(ctx, facts, rule, bodies):
+    """D: a timestamp taken out of a map (`remove`) is dropped only where it was established to be <= the competing one.
+    Every path through the removal either re-inserts the removed value into the same map, feeds it to a max-join, or
+    crosses an edge of a comparison (between a value looked up in that map and a competing timestamp) on which the
+    looked-up value is the smaller one."""
+    n = 0
+    for body in bodies:
+        flow = Flow(body, skip_deref_writes=True)
+        calls = list(body.calls())
+        lookups = [(b, t, map_identity(body, op_local(t['args'][0]))) for b, t in calls if cname(t) and LOOKUPS.match(cname(t))]
+        cmps = [c for c in comparisons(body) if c['rel'] not in ('==', '!=') and c['lhs'] is not None and c['rhs'] is not None
+                and is_ts(body, c['lhs']) and is_ts(body, c['rhs'])]
+        rets = body.return_blocks()
+        short = body.name.replace('datacake_crdt::orswot::', '')
+        for rb, rt, mid in lookups:
+            if not cname(rt).endswith('::remove') or not mid:
+                continue
+            if not any(is_ts(body, l) for l in flow.forward([rt['dest']['l']], stop=[0])) and 'HLCTimestamp' not in body.local_ty(rt['dest']['l']):
+                continue
+            n += 1
+            same = [lt['dest']['l'] for _lb, lt, lm in lookups if lm & mid]
+            # G: edges on which the value held in this map is the smaller operand
+            G = []
+            for c in cmps:
+                la, lb_ = flow.backward([c['lhs']]), flow.backward([c['rhs']])
+                held_l = any(x in la for x in same)
+                held_r = any(x in lb_ for x in same)
+                if held_l == held_r:
+                    continue
+                for kind in ('true', 'false'):
+                    e = c[kind + '_edge']
+                    if e[1] is None:
+                        continue
+                    rel = c['rel'] if kind == 'true' else NEG[c['rel']]     # lhs REL rhs
+                    if (held_l and rel in ('<', '<=')) or (held_r and rel in ('>', '>=')):
+                        G.append(e)
+            # I: the removed value is put back / joined
+            V = flow.forward([rt['dest']['l']], stop=[0])
+            I = []
+            for b, t in calls:
+                nn = cname(t)
+                if nn and re.match(r'^(alloc::collections::btree::map::BTreeMap|std::collections::hash::map::HashMap)::insert$', nn) \
+                        and op_local(t['args'][-1]) in V and map_identity(body, op_local(t['args'][0])) & mid:
+                    I.append(b)
+                if nn in ('core::cmp::max', 'core::cmp::Ord::max') and any(op_local(a) in V for a in t['args']):
+                    I.append(b)
+            re_ = ResultEdges(body, flow, rb, include_option=True)
+            starts = [e[1] for e in re_.ok] if re_.inspected else list(body.succ(rb))
+            dominated = any(body.edge_dominates(e, rb) for e in G)
+            escapes = set(rets) & body.reachable_from(starts, avoid=I, avoid_edges=G) if starts else set()
+            # a loop: reaching the next iteration's lookup of the same kind also ends this value's story
+            key = '%s|remove#%d' % (short, len([o for o in ctx.obs if o.rule == rule and o.key.startswith(short + '|remove#')]))
+            if dominated or not escapes:
+                ctx.ok(rule, key, site(body, rt['cs']), 'the value taken out of the map is re-inserted, joined, or dropped only where it is the smaller one')
+            else:
+                ctx.bad(rule, key, site(body, rt['cs']),
+                        'a timestamp is removed from its map and dropped on a path that never established it to be <= the competing timestamp '
+                        '(no re-insert, no max-join, no guard on that path): a newer delete / insert can be discarded in favour of an older operation')
+    return n
